@@ -8,7 +8,7 @@ import signal
 
 from .. import tlc, ser
 from ..artefact import run_jobs, optimizer
-from ..common import use_repo, vlog
+from ..common import is_ret,  use_repo, vlog
 
 
 def tree_src(t):
@@ -60,7 +60,7 @@ def universe_job(j):
                 ex = ser.ser_exprs(qf.expressions)
                 names = [n for n, _ in ex]
                 out.append({"src": src, "opt": opt, "inputs": [b for a in qf.args for b in a.bitvec], "exprs": ex,
-                            "rets": sorted({n for n in names if n.startswith("_ret")}),
+                            "rets": sorted({n for n in names if is_ret(n)}),
                             "temps": sorted({n for n in names if n.startswith("__")}),
                             "retbits": list(qf.returns.bitvec), "unc": True, "ev": []})
             except Exception:
